@@ -1,10 +1,153 @@
-import D2V.Model.Parser
+import D2V.Proofs.ParserSafety2
+import D2V.Proofs.ParserSafetyUQ
+import D2V.Proofs.ReaderInv
+/-!
+C01 — Parsing is total: any input yields a tree and positioned errors, never a crash.
+
+The model (`Model/Parser.lean`) transcribes d2parser/parse.go statement by statement over the reader algebra
+(`Model/Reader.lean`); it is tied to the source by the correspondence stream (tie K) and by the regenerated call-site
+table, stop sets and code-variant flags of `Gen/ParserSites.lean` (tie R).
+
+Proved here for **every** byte string, both position modes, every number oracle, every loop/nesting bound:
+* `C01_no_subtract_panic_*`  no entry point can reach `panic("d2ast: cannot subtract newline from Position")`
+* `C01_no_panic_*`           nor the slice panic of parseUnquotedString, *if* `lastPatternIndex` is reset with `sb`
+                             (`cfg.patReset`, read off the source by the translator)
+* `C01_cx_pattern_slice`     and without that reset the 12-byte input `a: xx*${y}z*` does panic (counterexample)
+* `reader_inv`, `replay_ok_iff'`, `nonspace_not_newline'`  the reader algebra facts the above rest on
+* `callSites_safe`           every replay / Subtract call site found in the source is of a class discharged above
+What is *not* proved: that the model's bound (`fuelFor`) is never hit, i.e. termination of the real loops
+(`C01_full_statement` keeps the whole sentence visible; termination is sampled by the correspondence stream, where
+`out-of-fuel` would be a mismatch, and searched on the implementation with a time-out).
+-/
 namespace D2V.Text
 
-theorem nonspace_not_newline (r : Char) (h : isSpace r = false) : r ≠ '\n' := by
-  intro e
-  subst e
-  revert h
+/-- the whole property on the model: every entry point returns a tree and an error list -/
+def C01_full_statement : Prop :=
+  ∀ (cfg : Cfg) (isNum : String → Bool) (bs : List UInt8) (u16 : Bool), cfg.patReset = true →
+    (∃ o, parseFile cfg isNum bs u16 = .ok o) ∧ (∃ o, parseKeyEntry cfg bs = .ok o) ∧
+    (∃ o, parseMapKeyEntry cfg isNum bs = .ok o) ∧ (∃ o, parseValueEntry cfg isNum bs = .ok o)
+
+theorem nonspace_not_newline' (r : Char) (h : isSpace r = false) : r ≠ '\n' := nonspace_not_newline r h
+
+/-- **reader_inv** (see `Proofs/ReaderInv.lean`) -/
+theorem C01_reader_inv {input : List Char} {ops : List ROp} {s s' : PState} (h : RInv input s) (r : Run ops s s') :
+    RInv input s' := reader_inv h r
+
+/-- `replay r` is `.ok` iff `r` is not the newline … -/
+theorem replay_ok_iff' {s : PState} {r : Char} : (∃ s', replay r s = .ok ((), s')) ↔ r ≠ '\n' := replay_ok_iff
+
+/-- … and under the discipline (nothing peeked, `r` consumed last) it keeps the invariant -/
+theorem replay_keeps_inv {input : List Char} {s s' : PState} {r : Char} {tl : List Char} (h : RInv input s)
+    (hg : s.lookahead = []) (hc : s.consumed = r :: tl) (e : replay r s = .ok ((), s')) : RInv input s' :=
+  rinv_replay h hg hc e
+
+/-- tie R: every `p.replay(x)` / `.Subtract(x)` / `.SubtractString(x)` in the parse.go under test takes a literal
+    without newline, the result of peekNotSpace/readNotSpace, or a parameter only ever given such a value -/
+theorem callSites_safe :
+    ∀ s ∈ D2V.Gen.ParserSites.callSites, s.2.2.2 ∈ ["literal", "nonspace", "param-nonspace"] := by decide
+
+/-- the stop sets the model takes from the source contain the newline, as the termination of unquoted strings at a
+    line end requires -/
+theorem stopSets_have_newline :
+    '\n' ∈ D2V.Gen.ParserSites.topStops ∧ '\n' ∈ D2V.Gen.ParserSites.dashStops ∧ '\n' ∈ D2V.Gen.ParserSites.edgeGroupStops := by
   decide
+
+/-! ### from the program logic to the entry points -/
+
+theorem safe_run {α : Type} {c : Cfg} {ok : Crash → Prop} {f : P α} {Q : α → Prop} (h : Safe c ok f Q)
+    (s : PState) (hs : s.cfg = c) (e : Crash) (hne : ¬ ok e) : f s ≠ .error e := by
+  intro he
+  have := h s hs
+  rw [he] at this
+  exact hne this
+
+section
+variable {c : Cfg} {ok : Crash → Prop} (hf : ok .outOfFuel) (hs : c.patReset = true ∨ ok .sliceOOB)
+include hf hs
+
+theorem safe_uq_all : ∀ (ps : P (Option T)), Safe c ok ps (fun _ => True) → ∀ b,
+    Safe c ok (parseUnquotedStringWith ps b) (fun _ => True) :=
+  fun _ hps b => safe_parseUnquotedStringWith hf hs hps b
+
+theorem safe_file (isNum : String → Bool) (n : Nat) : Safe c ok (parseMap (parseValueN isNum n) true) (fun _ => True) :=
+  safe_parseMap hf (safe_uq_all hf hs) (safe_parseValueN hf (safe_uq_all hf hs) isNum n) true
+
+theorem safe_key : Safe c ok parseKey (fun _ => True) := safe_parseKey hf (safe_uq_all hf hs)
+
+theorem safe_mapkey (isNum : String → Bool) (n : Nat) : Safe c ok (parseMapKey (parseValueN isNum n)) (fun _ => True) :=
+  safe_parseMapKey hf (safe_uq_all hf hs) (safe_parseValueN hf (safe_uq_all hf hs) isNum n)
+
+theorem safe_value (isNum : String → Bool) (n : Nat) : Safe c ok (parseValueN isNum n) (fun _ => True) :=
+  safe_parseValueN hf (safe_uq_all hf hs) isNum n
+
+omit hf hs in
+theorem finishRun_ne {α : Type} {x : Except Crash (α × PState)} {g : α → Option T} {e : Crash} (h : x ≠ .error e) :
+    finishRun x g ≠ .error e := by
+  unfold finishRun
+  split
+  · intro h'; cases h'
+  · intro h'; injection h' with h'; subst h'; exact h rfl
+
+/-- no entry point stops with a crash outside `ok` -/
+theorem entries_safe (isNum : String → Bool) (bs : List UInt8) (u16 : Bool) (e : Crash) (hne : ¬ ok e) :
+    parseFile c isNum bs u16 ≠ .error e ∧ parseKeyEntry c bs ≠ .error e ∧
+    parseMapKeyEntry c isNum bs ≠ .error e ∧ parseValueEntry c isNum bs ≠ .error e :=
+  ⟨finishRun_ne (safe_run (safe_file hf hs isNum _) (PState.init _ c _ _) rfl e hne),
+   finishRun_ne (safe_run (safe_key hf hs) (PState.init _ c _ _) rfl e hne),
+   finishRun_ne (safe_run (safe_mapkey hf hs isNum _) (PState.init _ c _ _) rfl e hne),
+   finishRun_ne (safe_run (safe_value hf hs isNum _) (PState.init _ c _ _) rfl e hne)⟩
+end
+
+/-- **C01 (Subtract panic)**: for every code variant, number oracle, byte string and position mode, no entry point
+    of the parser model stops in `Position.Subtract`'s panic -/
+theorem C01_no_subtract_panic (cfg : Cfg) (isNum : String → Bool) (bs : List UInt8) (u16 : Bool) :
+    parseFile cfg isNum bs u16 ≠ .error .subtractNewline ∧ parseKeyEntry cfg bs ≠ .error .subtractNewline ∧
+    parseMapKeyEntry cfg isNum bs ≠ .error .subtractNewline ∧ parseValueEntry cfg isNum bs ≠ .error .subtractNewline :=
+  entries_safe (ok := fun e => e ≠ .subtractNewline) (by decide) (Or.inr (by decide)) isNum bs u16 _ (by simp)
+
+/-- **C01 (no panic at all), partial**: when `lastPatternIndex` is reset together with `sb`, the only way the model
+    does not return a tree and an error list is by exhausting its own loop bound -/
+theorem C01_total_partial (cfg : Cfg) (h : cfg.patReset = true) (isNum : String → Bool) (bs : List UInt8) (u16 : Bool)
+    (e : Crash) (he : e ≠ .outOfFuel) :
+    parseFile cfg isNum bs u16 ≠ .error e ∧ parseKeyEntry cfg bs ≠ .error e ∧
+    parseMapKeyEntry cfg isNum bs ≠ .error e ∧ parseValueEntry cfg isNum bs ≠ .error e :=
+  entries_safe (ok := fun e => e = .outOfFuel) rfl (Or.inl h) isNum bs u16 e he
+
+/-- hence: a tree and an error list, or the bound -/
+theorem C01_parse_total_or_bound (cfg : Cfg) (h : cfg.patReset = true) (isNum : String → Bool) (bs : List UInt8)
+    (u16 : Bool) : (∃ o, parseFile cfg isNum bs u16 = .ok o) ∨ parseFile cfg isNum bs u16 = .error .outOfFuel := by
+  cases hp : parseFile cfg isNum bs u16 with
+  | ok o => exact Or.inl ⟨o, rfl⟩
+  | error e =>
+    by_cases he : e = .outOfFuel
+    · subst he; exact Or.inr rfl
+    · exact absurd hp ((C01_total_partial cfg h isNum bs u16 e he).1)
+
+/-- the crash an entry point ended in, if any (decidable, unlike equality of outcomes) -/
+def crashOf (x : Except Crash Outcome) : Option Crash :=
+  match x with
+  | .error c => some c
+  | .ok _ => none
+
+theorem crashOf_some {x : Except Crash Outcome} {c : Crash} (h : crashOf x = some c) : x = .error c := by
+  unfold crashOf at h
+  split at h
+  · injection h with h; rw [h]
+  · cases h
+
+/-- the hypotheses are satisfiable and the statements are not vacuous: a concrete parse that returns a tree -/
+example : crashOf (parseFile ⟨true, true⟩ (fun _ => false) [97, 58, 32, 98] false) = none := by decide +kernel
+
+/-- **counterexample on the unchanged tree**: without the reset, `a: xx*${y}z*` drives the slice out of bounds —
+    the Go parser panics with "slice bounds out of range [3:1]" on the same 12 bytes -/
+theorem C01_cx_pattern_slice :
+    parseFile ⟨false, false⟩ (fun _ => false) [97, 58, 32, 120, 120, 42, 36, 123, 121, 125, 122, 42] false
+      = .error .sliceOOB :=
+  crashOf_some (by decide +kernel)
+
+/-- and with the reset the same input parses -/
+theorem C01_pattern_slice_fixed :
+    crashOf (parseFile ⟨true, false⟩ (fun _ => false) [97, 58, 32, 120, 120, 42, 36, 123, 121, 125, 122, 42] false)
+      = none := by decide +kernel
 
 end D2V.Text
